@@ -400,6 +400,8 @@ package client
 //@ watch PJ = call path.Join
 //@ watch PE = call net/url.PathEscape
 //@ watch RA = call strings.ReplaceAll
+//@ watch GQ = call (*request).GetQueryParams
+//@ watch SQ = call (*request).SetQueryParam
 //@ effect WTR r.pathParams, r.header, r.query, r.formFields, r.fileFields, r.payload, r.timeout
 //@ effect AR r.pathParams, r.header, r.query, r.formFields, r.fileFields, r.payload, r.timeout
 //@ requires r != nil && r.writer != nil
@@ -437,8 +439,18 @@ package client
 //@ loop 0 invariant calls(Q) == 2 && staticQueryParams == ret(Q,0,0) && staticQueryParams != nil && ret(Q,0,0) != ret(Q,1,0) && calls(UP) == 2 && calls(PJ) == 0 && calls(RA) == 0 && calls(PE) == 0 && calls(NRQ) == 0
 //@ loop 1 invariant calls(Q) == 2 && staticQueryParams == ret(Q,0,0) && staticQueryParams != nil && ret(Q,0,0) != ret(Q,1,0) && calls(UP) == 2 && calls(PJ) == 0 && calls(RA) == 0 && calls(PE) == 0 && calls(NRQ) == 0
 //@ loop 3 invariant calls(Q) == 2 && staticQueryParams == ret(Q,0,0) && staticQueryParams != nil && r.query != staticQueryParams && calls(NRQ) == 1 && calls(PJ) == 1 && calls(UP) == 2 && req == ret(NRQ,0,0) && req != nil
+//@ spec inCaller(k) := before(GQ, in(k, r.query))
+//@ spec callerVal(k) := before(GQ, mapat(r.query, k))
+//@ loop 3 invariant calls(GQ) == 1 && originalParams == ret(GQ,0,0) && originalParams != nil && originalParams != staticQueryParams && originalParams != r.query && 0 <= mappos && mappos <= mapcard
+//@ loop 3 invariant forall k string :: in(k, originalParams) <==> inCaller(k)
+//@ loop 3 invariant [C10:callerwins] forall k string :: inCaller(k) ==> in(k, r.query) && mapat(r.query, k) == callerVal(k)
+//@ loop 3 invariant [C10:staticfill] forall k string :: in(k, staticQueryParams) && mapidx(k) < mappos && !inCaller(k) ==> in(k, r.query) && mapat(r.query, k) == mapat(staticQueryParams, k)
+//@ loop 3 invariant [C10:nothingelse] forall k string :: in(k, r.query) ==> inCaller(k) || (in(k, staticQueryParams) && mapidx(k) < mappos)
 //@ loop 2 invariant 0 <= mappos && mappos <= mapcard && calls(RA) == mappos && calls(PE) == mappos && calls(PJ) == 1 && calls(UP) == 2 && urlPath == (mappos == 0 ? ret(PJ,0,0) : ret(RA,mappos-1,0))
 //@ loop 2 invariant forall i int :: 0 <= i && i < calls(RA) ==> arg(RA,i,0) == (i == 0 ? ret(PJ,0,0) : ret(RA,i-1,0)) && arg(RA,i,1) == "{" + mapkey(i) + "}" && arg(RA,i,2) == ret(PE,i,0) && arg(PE,i,0) == mapat(r.pathParams, mapkey(i))
+//@ ensures [C10:callerwins] result1 == nil ==> forall k string :: inCaller(k) ==> in(k, r.query) && mapat(r.query, k) == callerVal(k)
+//@ ensures [C10:staticfill] result1 == nil ==> forall k string :: !inCaller(k) && before(GQ, in(k, staticQueryParams)) ==> in(k, r.query) && mapat(r.query, k) == before(GQ, mapat(staticQueryParams, k))
+//@ ensures [C10:nothingelse] result1 == nil ==> forall k string :: in(k, r.query) ==> inCaller(k) || before(GQ, in(k, staticQueryParams))
 //@ ensures [C12:abort] result1 != nil && calls(GO) == 1 ==> calls(AB) == 1 && arg(AB,0,0) == ret(PIPE,0,0) && arg(AB,0,1) == result1 && result1 == ret(AB,0,0)
 //@ ensures [C12:noabort] result1 == nil ==> calls(AB) == 0 && result0 != nil
 //@ ensures [C10:request] result1 == nil ==> result0 == ret(NRQ,0,0) && result0.URL != nil && result0.URL.RawQuery == ret(ENC,calls(ENC)-1,0) && arg(ENC,calls(ENC)-1,0) == r.query
